@@ -37,4 +37,26 @@ StartC == {DocC}
 StartD == {DocD}
 StartE == {DocE, <<MkPara(FALSE, <<F(2, "U", 1, 1)>>)>>}
 StartAll == {DocA, DocB, DocC, DocD, DocE}
+\* negative control for SortByLaws (MC_ReproDoc_neg_sort.cfg): a sort whose ties fall back to some
+\* other order than the current one - here the name order, which is what sorting a differently
+\* ordered copy of the fields (parse order, insertion order of a lookup table) looks like after a
+\* move - is NOT the documented sort; TLC must report NegSortByLaws violated
+RSortPosTieByName(fs, kt) == RSortPosBy(fs, [n \in Names |-> 100 * RKeyOf(kt, n) + n])
+NegSortByLaws == \A p \in 1..NParas : \A kt \in SortKeyTabs : SortLawsFor(RSortPosTieByName, Para(p).fs, kt)
+\* C05, documents that track the final newline of every field (attribute nl): the edited paragraph
+\* is the LAST one and the document has no final newline (last field: nl = FALSE, with its own
+\* comment lines), so that histories of several adds and deletes (two names absent at the start)
+\* pass through "newline supplied, the field that caused it deleted again while others follow"
+FN(n, s, v, c, nl) == [n |-> n, s |-> s, v |-> v, c |-> c, nl |-> nl]
+FrozenN(fs) == [t |-> "p", dup |-> FALSE, fs |-> fs, id |-> 1]
+DocG  == <<FrozenN(<<FN(1, "U", 7, 0, TRUE), FN(3, "L", 8, 8, TRUE)>>), MkSep(1),
+           MkPara(FALSE, <<FN(1, "U", 1, 1, FALSE)>>)>>
+\* duplicated fields (the other paragraph class), last occurrence unterminated
+DocG2 == <<FrozenN(<<FN(2, "U", 7, 7, TRUE)>>), MkSep(1),
+           MkPara(TRUE, <<FN(1, "L", 4, 4, TRUE), FN(1, "U", 6, 6, FALSE)>>)>>
+StartG  == {DocG}
+StartG2 == {DocG2}
+\* negative control (MC_ReproDoc_neg_nl.cfg, REnsureNl <- NegNoEnsure): an add that does not supply
+\* the missing newline glues two fields; TLC must report DocWellFormed violated
+NegNoEnsure(fs) == fs
 =============================================================================
